@@ -187,7 +187,9 @@ Proof.
         rewrite !split_at_spec.
         destruct Hw as [(Hs' & -> & -> & -> & ->)|Hbr].
         -- apply IH. left. split; [reflexivity|]. split; [reflexivity|]. split; [reflexivity|exact Hs'].
-        -- apply IH. right. exact Hbr.
+        -- apply (agree_broken i _ _ (mk_bufw (bw_rev b0) (bw_n b0) ef wf') (mk_bufw (bw_rev b0) (bw_n b0) e0 w0') Hbr).
+           ++ apply bw_write_go_frozen. apply Hbr.
+           ++ apply bw_write_go_fwd. apply Hbr.
       * rewrite !split_at_spec. cbn beta iota zeta.
         set (b1f := mk_bufw _ bufio_size None (bw_under bf)). set (b10 := mk_bufw _ bufio_size None (bw_under b0)).
         assert (H1 : rb i b1f b10) by (left; split; [reflexivity|split; [reflexivity|split; [reflexivity|exact Hsim]]]).
@@ -243,4 +245,216 @@ Proof.
       apply bw_flush_fwd. apply Hb. }
     unfold rtmp_write_message in Hff, Hfw.
     apply (agree_broken i _ _ _ _ Hb Hff Hfw).
+Qed.
+
+(* ---------- operations: how many complete before call i, read off the fault-free run ---------- *)
+Fixpoint done_before (i : N) (ops : list (list bytes)) (b0 : bufw) (n : N) : N :=
+  match ops with
+  | [] => n
+  | o :: r => let b0' := snd (rtmp_write_message o b0) in
+              if wt_calls (bw_under b0') <=? i then done_before i r b0' (N.succ n) else n
+  end.
+
+Lemma ops_fwd ops : forall b n, intact (bw_under b) -> fwd (bw_under b) (bw_under (snd (rtmp_write_ops ops b n))).
+Proof.
+  induction ops as [|o ops IH]; intros b n H; cbn [rtmp_write_ops]; [now apply fwd_refl|].
+  pose proof (message_fwd o b H) as H1.
+  destruct (rtmp_write_message o b) as [[e|] b1]; [exact H1|]. cbn [snd] in H1.
+  eapply fwd_trans; [exact H1|]. apply IH. apply H1.
+Qed.
+
+Lemma simb_clean i bf b0 : simb i bf b0 -> clean bf -> bw_buf bf = [] -> clean b0 /\ bw_buf b0 = [].
+Proof.
+  intros (Hr & Hn & He & Hs) (C1 & C2 & C3) Hb. split.
+  - split; [congruence|]. split; [congruence|]. apply Hs.
+  - unfold bw_buf in *. now rewrite <- Hr.
+Qed.
+
+Theorem ops_sim i ops : forall bf b0 n, simb i bf b0 -> clean bf -> bw_buf bf = [] ->
+  let '(nf, oef, bf') := rtmp_write_ops ops bf n in
+  nf = done_before i ops b0 n /\
+  match oef with
+  | None => simb i bf' (snd (rtmp_write_ops ops b0 n))
+  | Some _ => i < wt_calls (bw_under (snd (rtmp_write_ops ops b0 n)))
+  end.
+Proof.
+  induction ops as [|o ops IH]; intros bf b0 n Hs Hc Hb; cbn [rtmp_write_ops done_before].
+  - split; [reflexivity|exact Hs].
+  - destruct (simb_clean i bf b0 Hs Hc Hb) as [Hc0 Hb0].
+    pose proof (message_rb i o bf b0 (or_introl Hs)) as [Hrb Hfst].
+    pose proof (rtmp_write_message_spec o bf Hc Hb) as Sf. cbn zeta in Sf.
+    pose proof (rtmp_write_message_spec o b0 Hc0 Hb0) as S0. cbn zeta in S0.
+    pose proof (message_fwd o b0 (sim_intact _ _ _ (proj2 (proj2 (proj2 Hs))))) as F0.
+    destruct (rtmp_write_message o bf) as [oef bf1]. destruct (rtmp_write_message o b0) as [oe0 b01].
+    cbn [fst snd] in *.
+    assert (Hoe0 : oe0 = None).
+    { destruct oe0 as [e|]; [|reflexivity]. destruct S0 as (_ & _ & Hf & _). destruct F0 as [[_ Hi] _]. congruence. }
+    subst oe0. destruct S0 as (_ & Hc01 & Hb01 & _).
+    destruct Hrb as [Hs1|Hbr].
+    + specialize (Hfst Hs1). subst oef. destruct Sf as (_ & Hc1 & Hb1 & _).
+      assert (Hle : wt_calls (bw_under b01) <= i).
+      { destruct Hs1 as (_ & _ & _ & (_ & _ & E & L & _)). lia. }
+      destruct (N.leb_spec (wt_calls (bw_under b01)) i) as [_|H]; [|lia].
+      apply (IH bf1 b01 (N.succ n) Hs1 Hc1 Hb1).
+    + destruct oef as [e|].
+      * destruct (N.leb_spec (wt_calls (bw_under b01)) i) as [H|_]; [destruct Hbr as (_ & L & _); lia|].
+        split; [reflexivity|].
+        pose proof (ops_fwd ops b01 (N.succ n) (proj2 (proj2 Hbr))) as [_ L]. destruct Hbr as (_ & L' & _). lia.
+      * destruct Sf as (_ & (_ & _ & Hnf) & _). destruct Hbr as (Hf & _). congruence.
+Qed.
+
+(* ---------- the handshake writes on the raw transport ---------- *)
+Lemma copy_bytes_sim i p wf w0 : sim i wf w0 ->
+  let '(ef, wf') := copy_bytes p wf in
+  let '(e0, w0') := copy_bytes p w0 in
+  e0 = None /\ ((sim i wf' w0' /\ ef = None) \/ (broken i wf' w0' /\ ef <> None)).
+Proof.
+  intros Hs. pose proof (sim_intact _ _ _ Hs) as Hi0.
+  pose proof (copy_bytes_cases p wf (proj1 Hs)) as Cf. pose proof (copy_bytes_cases p w0 (proj2 Hi0)) as C0.
+  pose proof (copy_bytes_intact p w0 Hi0) as I0.
+  unfold copy_bytes in *. destruct p as [|x p].
+  - split; [reflexivity|]. left. auto.
+  - pose proof (wt_write_sim i (x :: p) wf w0 Hs) as Hw.
+    destruct (wt_write (x :: p) wf) as [[mf ef] wf']. destruct (wt_write (x :: p) w0) as [[m0 e0] w0'].
+    cbn beta iota zeta in Hw, Cf, C0, I0.
+    destruct Hw as [(Hs' & -> & -> & -> & ->)|Hbr].
+    + rewrite N.eqb_refl. cbn beta iota zeta. split; [reflexivity|]. left. auto.
+    + destruct ef as [e1|]; [|destruct (mf =? lenN (x :: p))];
+        (destruct e0 as [e2|]; [|destruct (m0 =? lenN (x :: p))]);
+        cbn beta iota zeta in *; cbn [snd] in *;
+        try (exfalso; destruct C0 as (_ & _ & Hf & _); destruct I0 as [_ I0]; congruence);
+        try (exfalso; destruct Cf as (_ & Hf & _); destruct Hbr as (Hf' & _); congruence);
+        (split; [reflexivity|right; split; [exact Hbr|discriminate]]).
+Qed.
+
+Fixpoint done_raw (i : N) (sizes : list N) (w0 : wtr) (n : N) : N :=
+  match sizes with
+  | [] => n
+  | k :: r => let w0' := snd (copy_bytes (repeat 0 (N.to_nat k)) w0) in
+              if wt_calls w0' <=? i then done_raw i r w0' (N.succ n) else n
+  end.
+
+Lemma copy_bytes_fwd p w : intact w -> fwd w (snd (copy_bytes p w)).
+Proof.
+  intros H. unfold copy_bytes. destruct p as [|x p]; [now apply fwd_refl|].
+  pose proof (wt_write_intact_calls (x :: p) w H) as [H1 H2].
+  destruct (wt_write (x :: p) w) as [[m oe] w']. cbn [snd] in *.
+  destruct oe; [|destruct (m =? lenN (x :: p))]; split; assumption.
+Qed.
+
+Lemma raw_fwd sizes : forall w n, intact w -> fwd w (snd (raw_copies sizes w n)).
+Proof.
+  induction sizes as [|k r IH]; intros w n H; cbn [raw_copies]; [now apply fwd_refl|].
+  pose proof (copy_bytes_fwd (repeat 0 (N.to_nat k)) w H) as H1.
+  destruct (copy_bytes (repeat 0 (N.to_nat k)) w) as [[e|] w1]; [exact H1|]. cbn [snd] in H1.
+  eapply fwd_trans; [exact H1|]. apply IH. apply H1.
+Qed.
+
+Theorem raw_sim i sizes : forall wf w0 n, sim i wf w0 ->
+  let '(nf, ef, wf') := raw_copies sizes wf n in
+  nf = done_raw i sizes w0 n /\
+  fst (fst (raw_copies sizes w0 n)) = n + N.of_nat (length sizes) /\ snd (fst (raw_copies sizes w0 n)) = None /\
+  match ef with
+  | None => sim i wf' (snd (raw_copies sizes w0 n)) /\ nf = n + N.of_nat (length sizes)
+  | Some _ => i < wt_calls (snd (raw_copies sizes w0 n))
+  end.
+Proof.
+  induction sizes as [|k r IH]; intros wf w0 n Hs; cbn [raw_copies done_raw length].
+  - rewrite N.add_0_r. auto.
+  - pose proof (copy_bytes_sim i (repeat 0 (N.to_nat k)) wf w0 Hs) as Hc.
+    destruct (copy_bytes (repeat 0 (N.to_nat k)) wf) as [ef wf1].
+    destruct (copy_bytes (repeat 0 (N.to_nat k)) w0) as [e0 w01]. cbn [snd].
+    destruct Hc as (-> & [(Hs1 & ->)|(Hbr & Hne)]).
+    + assert (Hle : wt_calls w01 <= i) by (destruct Hs1 as (_ & _ & E & L & _); lia).
+      destruct (N.leb_spec (wt_calls w01) i) as [_|H]; [|lia].
+      specialize (IH wf1 w01 (N.succ n) Hs1).
+      destruct (raw_copies r wf1 (N.succ n)) as [[nf ef] wf']. destruct IH as (H1 & H2 & H3 & H4).
+      split; [exact H1|]. split; [rewrite H2; lia|]. split; [exact H3|].
+      destruct ef; [exact H4|]. destruct H4 as [H4 H5]. split; [exact H4|lia].
+    + destruct ef as [e|]; [|congruence].
+      destruct (N.leb_spec (wt_calls w01) i) as [H|_]; [destruct Hbr as (_ & L & _); lia|].
+      split; [reflexivity|].
+      pose proof (raw_fwd r w01 (N.succ n) (proj2 (proj2 Hbr))) as [Hi L].
+      assert (Hfree : fst (fst (raw_copies r w01 (N.succ n))) = N.succ n + N.of_nat (length r) /\ snd (fst (raw_copies r w01 (N.succ n))) = None).
+      { clear -Hbr. destruct Hbr as (_ & _ & Hi). revert w01 n Hi. induction r as [|k r IH]; intros w n Hi; cbn [raw_copies length].
+        - cbn. split; [lia|reflexivity].
+        - pose proof (copy_bytes_intact (repeat 0 (N.to_nat k)) w Hi) as H1.
+          pose proof (copy_bytes_cases (repeat 0 (N.to_nat k)) w (proj2 Hi)) as C.
+          destruct (copy_bytes (repeat 0 (N.to_nat k)) w) as [[e|] w1]; cbn [snd] in H1.
+          + destruct C as (_ & _ & Hf & _). destruct H1. congruence.
+          + destruct (IH w1 (N.succ n) H1) as [A B]. split; [rewrite A; lia|exact B]. }
+      destruct Hfree as [A B]. split; [rewrite A; lia|]. split; [exact B|]. destruct Hbr as (_ & L' & _). lia.
+Qed.
+
+(* ================================ the session ================================ *)
+(* operations (handshake writes, then messages) completed before transport call number i, read
+   off the run over the transport that never fails *)
+Definition free_done (i : N) (hs : bool) (ms : list rmsg) (m : N) (term : option N) : N :=
+  let w0 := wtr_new None m term in
+  if hs then
+    let w1 := snd (raw_copies [1; 1536; 1536] w0 0) in
+    if wt_calls w1 <=? i then done_before i (msgs_write_ops DEFCHUNK ms) (bufw_new w1) 3
+    else done_raw i [1; 1536; 1536] w0 0
+  else done_before i (msgs_write_ops DEFCHUNK ms) (bufw_new w0) 0.
+
+(* transport calls of the whole fault-free session *)
+Definition free_calls (hs : bool) (ms : list rmsg) (m : N) (term : option N) : N :=
+  wt_calls (snd (rtmp_write_session hs ms (wtr_new None m term))).
+
+Lemma sim_new i m term : sim i (wtr_new (Some i) m term) (wtr_new None m term).
+Proof. unfold sim, intact, wtr_new. cbn. repeat split; lia. Qed.
+
+Lemma done_raw_le i sizes : forall w0 n, n <= done_raw i sizes w0 n <= n + N.of_nat (length sizes).
+Proof.
+  induction sizes as [|k r IH]; intros w0 n; cbn [done_raw length]; [lia|].
+  destruct (wt_calls _ <=? i); [|lia]. specialize (IH (snd (copy_bytes (repeat 0 (N.to_nat k)) w0)) (N.succ n)). lia.
+Qed.
+
+Theorem rtmp_write_session_which hs ms i m term :
+  let '(n, oe, w) := rtmp_write_session hs ms (wtr_new (Some i) m term) in
+  n = free_done i hs ms m term /\
+  (oe = None <-> free_calls hs ms m term <= i).
+Proof.
+  unfold free_done, free_calls, rtmp_write_session.
+  pose proof (sim_new i m term) as Hs0.
+  set (wf0 := wtr_new (Some i) m term) in *. set (w00 := wtr_new None m term) in *.
+  assert (P2 : forall wf1 w01 n1, sim i wf1 w01 ->
+     let '(n2, e2, b) := rtmp_write_ops (msgs_write_ops DEFCHUNK ms) (bufw_new wf1) n1 in
+     n2 = done_before i (msgs_write_ops DEFCHUNK ms) (bufw_new w01) n1 /\
+     (e2 = None <-> wt_calls (bw_under (snd (rtmp_write_ops (msgs_write_ops DEFCHUNK ms) (bufw_new w01) n1))) <= i)).
+  { intros wf1 w01 n1 Hs.
+    assert (Hsb : simb i (bufw_new wf1) (bufw_new w01)) by (split; [reflexivity|split; [reflexivity|split; [reflexivity|exact Hs]]]).
+    assert (Hc : clean (bufw_new wf1)) by (split; [reflexivity|split; [reflexivity|apply Hs]]).
+    pose proof (ops_sim i (msgs_write_ops DEFCHUNK ms) _ _ n1 Hsb Hc eq_refl) as O.
+    destruct (rtmp_write_ops (msgs_write_ops DEFCHUNK ms) (bufw_new wf1) n1) as [[n2 e2] b]. destruct O as (On & Oe).
+    split; [exact On|]. destruct e2 as [e|].
+    - split; [discriminate|lia].
+    - split; [intros _|reflexivity]. destruct Oe as (_ & _ & _ & (_ & _ & E & L & _)). lia. }
+  destruct hs.
+  - pose proof (raw_sim i [1; 1536; 1536] wf0 w00 0 Hs0) as R.
+    destruct (raw_copies [1; 1536; 1536] wf0 0) as [[n1 e1] wf1]. destruct R as (Rn & R0n & R0e & Re).
+    destruct (raw_copies [1; 1536; 1536] w00 0) as [[n01 e01] w01] eqn:E0. cbn [fst snd] in *. subst e01.
+    destruct e1 as [e|].
+    + destruct (N.leb_spec (wt_calls w01) i) as [H|_]; [lia|]. split; [exact Rn|].
+      split; [discriminate|]. intros H.
+      pose proof (ops_fwd (msgs_write_ops DEFCHUNK ms) (bufw_new w01) n01) as F.
+      destruct (rtmp_write_ops (msgs_write_ops DEFCHUNK ms) (bufw_new w01) n01) as [[n2 e2] b]. cbn [snd bufw_new bw_under] in *.
+      assert (Hi : intact w01).
+      { pose proof (raw_fwd [1; 1536; 1536] w00 0 (sim_intact _ _ _ Hs0)) as [Hi _]. rewrite E0 in Hi. exact Hi. }
+      destruct (F Hi) as [_ L]. cbn [snd] in H. lia.
+    + destruct Re as [Hs1 Hn1]. cbn [length] in Hn1, R0n.
+      assert (Hle : wt_calls w01 <= i) by (destruct Hs1 as (_ & _ & E & L & _); lia).
+      destruct (N.leb_spec (wt_calls w01) i) as [_|H]; [|lia].
+      assert (E1 : n01 = n1) by lia. subst n01.
+      specialize (P2 wf1 w01 n1 Hs1).
+      destruct (rtmp_write_ops (msgs_write_ops DEFCHUNK ms) (bufw_new wf1) n1) as [[n2 e2] b].
+      destruct P2 as [A B].
+      assert (E3 : n1 = 3) by (rewrite Hn1; reflexivity). rewrite E3 in A, B.
+      split; [exact A|].
+      destruct (rtmp_write_ops (msgs_write_ops DEFCHUNK ms) (bufw_new w01) 3) as [[n3 e3] b3] eqn:E4.
+      change (0 + N.of_nat 3) with 3. rewrite E4. cbn [snd] in *. exact B.
+  - specialize (P2 wf0 w00 0 Hs0).
+    destruct (rtmp_write_ops (msgs_write_ops DEFCHUNK ms) (bufw_new wf0) 0) as [[n2 e2] b].
+    destruct P2 as [A B]. split; [exact A|].
+    destruct (rtmp_write_ops (msgs_write_ops DEFCHUNK ms) (bufw_new w00) 0) as [[n3 e3] b3]. exact B.
 Qed.
